@@ -3,6 +3,7 @@ package slog
 import (
 	"context"
 	"errors"
+	"fmt"
 	"io"
 	"log"
 	"time"
@@ -61,9 +62,12 @@ func Println(args ...any) {
 		logctx(AlwaysLevel, "")
 		return
 	}
-	var msg string
-	msg, args = args[0].(string), args[1:] //nolint:errcheck,revive
-	logctx(AlwaysLevel, msg, args...)
+	// the message may be any value: a non-string is formatted, not asserted
+	msg, ok := args[0].(string)
+	if !ok {
+		msg = fmt.Sprint(args[0])
+	}
+	logctx(AlwaysLevel, msg, args[1:]...)
 }
 
 func logctx(lvl Level, msg string, args ...any) {
